@@ -314,7 +314,19 @@ def _classes():
             outputs['v'] = discrete_inputs['n'] * inputs['u'] + 0.5
             discrete_outputs['m'] = discrete_inputs['n'] + 1
 
-    return KExpl, KImpl, KConst, KLoadGroup, KDisc
+    class KShape(om.ExplicitComponent):
+        """y = 2 x where the size of x comes from what it is connected to"""
+        def setup(self):
+            self.add_input('x', shape_by_conn=True)
+            self.add_output('y', copy_shape='x')
+
+        def setup_partials(self):
+            self.declare_partials('y', 'x', method='fd')
+
+        def compute(self, inputs, outputs):
+            outputs['y'] = 2.0 * inputs['x']
+
+    return KExpl, KImpl, KConst, KLoadGroup, KDisc, KShape
 
 
 def _exec_comp(om, c):
@@ -342,7 +354,7 @@ def build(spec, driver=None):
     import openmdao.api as om
     if _CLS is None:
         _CLS = _classes()
-    KExpl, KImpl, KConst, KLoadGroup, KDisc = _CLS
+    KExpl, KImpl, KConst, KLoadGroup, KDisc, KShape = _CLS
     p = om.Problem()
     groups = {'': p.model}
     overriding = set(spec.get('load_override', []))
@@ -370,6 +382,12 @@ def build(spec, driver=None):
         for v, meta in sidx.items():
             # promoted with src_indices into a larger (automatically created) source
             g.promotes(name, inputs=[v], src_indices=meta['idx'], src_shape=(meta['shape'],))
+    sbc = spec.get('sbc')
+    if sbc:
+        # a second input of the same promoted name, sized by its connection, and a default value for the name
+        import numpy as np
+        groups[sbc['group']].add_subsystem('sbc', KShape(), promotes_inputs=[('x', sbc['var'])])
+        p.model.set_input_defaults(sbc['name'], val=np.array(sbc['val'], dtype=float))
     if spec.get('discrete'):
         p.model.add_subsystem('disc', KDisc(), promotes_inputs=[('u', 'u_d'), ('n', 'n_d')])
     for src, tgt in spec['conns']:
